@@ -342,6 +342,11 @@ def exec_single(case, obs):
 # ------------------------------------------------------------------------------------------------------------------
 
 
+def _layouts(pairing, exec_pairing, d_p):
+    from ..engine import with_array_layouts
+    return with_array_layouts(Family("dft-pairing", pairing, exec_pairing, describe=d_p), expect=("dft-gain", "per-image-dose-pairing"))
+
+
 def families(tier, seed):
     quick = tier == "quick"
     base = [4, 5, 6, 7] if quick else [4, 5, 6, 7, 8, 9]
@@ -394,4 +399,5 @@ def families(tier, seed):
         Family("float32-and-files", f32, exec_f32, describe=d_f, expect=("dft-gain", "dc-untouched")),
         Family("dose-text-file", txt, exec_textdose, describe=d_t, expect=()),
         Family("single-image-inputs", single, exec_single, describe=d_s, expect=("dft-gain",)),
+        _layouts(pairing, exec_pairing, d_p),
     ]
